@@ -29,6 +29,10 @@ func NewFeature(geometry Object, members string) *Feature {
 			}
 			g.extra = new(extra)
 			g.extra.members = string(pretty.UglyInPlace([]byte(members)))
+			if g.extra.members == "{}" {
+				// no members are left, such as with "{ }" or `{"feature":1}`
+				g.extra = nil
+			}
 		}
 	}
 	return g
